@@ -3,6 +3,8 @@ from harness.common import Harness, Cls, IntRange, Enum, hole_args, text_of, rea
 from harness import docs, c01
 from oracle.content import content, first_difference
 
+THOROUGH_STRIDE = 4      # the registered thorough tier runs every 4th instance of the full cross product (vp_check.py --tier full runs all)
+
 ASSUMPTIONS = [
     'databases are (a) the parsed results of the C01 scenario documents and (b) API-built models over the DBML-expressible value '
     'domain of DESIGN 3.2 (names are quote-free, note texts are in normal form, numeric defaults non-negative, no tabs)',
